@@ -117,11 +117,212 @@ func runC03(c *ctx) {
 		}
 	}
 
+	// 2b. ranges whose bounds are beyond 2^53 (integers are no longer all representable: the i-th
+	// member is the double nearest to a+i) and just below it
+	for i := 0; i < c.scale(300, 5000) && !c.tooMany(); i++ {
+		base := []float64{9007199254740992, 9007199254740990, 1 << 60, -9007199254740992, 4503599627370496, 1e17}[r.intn(6)]
+		a := base + float64(r.intn(9)-4)*2
+		b := a + float64(r.intn(7))*[]float64{1, 2, 256}[r.intn(3)]
+		if b-a > 2000 {
+			continue
+		}
+		in := map[string]interface{}{"x": a, "y": b}
+		c.diffEval("[x..y]", in, "range/beyond-2^53")
+		g := goEval("[x..y]", in)
+		if arr, ok := g.value.([]interface{}); ok && g.err == nil {
+			for j, v := range arr {
+				if f, ok := v.(float64); !ok || f != a+float64(j) {
+					c.disagree(Disagreement{Kind: "oracle", Prog: "[x..y]", Input: in, Go: fmt.Sprintf("member %d = %v", j, v), Model: fmt.Sprintf("the double nearest to x+%d = %v", j, a+float64(j))})
+					break
+				}
+			}
+		}
+	}
+
+	// 2c. structural equality of arrays and objects taken from the input: pairs of nearly equal
+	// values (renamed members, null members, nulls in arrays, permuted arrays, nested changes)
+	for i := 0; i < c.scale(2500, 40000) && !c.tooMany(); i++ {
+		x := c03Value(r, 3)
+		y := c03Mutate(r, x)
+		if r.chance(1, 4) {
+			y = c03Value(r, 3)
+		}
+		in := map[string]interface{}{"x": x, "y": y, "ys": []interface{}{c03Mutate(r, x), y, c03Mutate(r, y)}}
+		_, xc := x.(map[string]interface{})
+		_, xa := x.([]interface{})
+		_, yc := y.(map[string]interface{})
+		_, ya := y.([]interface{})
+		if !(xc || xa) || !(yc || ya) {
+			continue
+		}
+		// an empty array taken from the input is "no value" (C01), and [y] flattens an array y
+		if xs, ok := x.([]interface{}); ok && len(xs) == 0 {
+			continue
+		}
+		if ysl, ok := y.([]interface{}); ok && len(ysl) == 0 {
+			continue
+		}
+		want := jsonDeepEqual(x, y)
+		for _, pe := range []struct {
+			prog string
+			want bool
+		}{{"x = y", want}, {"x != y", !want}, {"y = x", want}, {"x in [y, 0]", want && yc}, {"$count(ys[$ = $$.x]) > 0", jsonDeepEqual(x, in["ys"].([]interface{})[0]) || jsonDeepEqual(x, in["ys"].([]interface{})[1]) || jsonDeepEqual(x, in["ys"].([]interface{})[2])}} {
+			if pe.prog == "x in [y, 0]" && !yc {
+				continue // [y, 0] flattens an array y
+			}
+			c.diffEval(pe.prog, in, "structural-eq")
+			g := goEval(pe.prog, in)
+			exp := "ok f"
+			if pe.want {
+				exp = "ok t"
+			}
+			if g.outcome != exp && pe.prog != "$count(ys[$ = $$.x]) > 0" {
+				c.disagree(Disagreement{Kind: "oracle", Prog: pe.prog, Input: in, Go: g.outcome, Model: exp + " (member-wise comparison; an absent member is not a null member)"})
+			}
+		}
+	}
+
 	// 3. random nesting up to depth 3
 	n = c.scale(4000, 60000)
 	for i := 0; i < n && !c.tooMany(); i++ {
 		prog := genOpExpr(r, 3)
 		c.diffEval(prog, input, "nested")
+	}
+}
+
+// c03Value builds a JSON value with null members, nesting and repeated small scalars (so that
+// two independently built values are often nearly equal)
+func c03Value(r *rng, depth int) interface{} {
+	k := r.intn(9)
+	if depth <= 0 && k >= 6 {
+		k = r.intn(6)
+	}
+	switch k {
+	case 0:
+		return nil
+	case 1:
+		return float64(r.intn(3))
+	case 2:
+		return []string{"", "a", "1"}[r.intn(3)]
+	case 3:
+		return r.chance(1, 2)
+	case 4:
+		return 1.0
+	case 5:
+		return nil
+	case 6, 7:
+		m := map[string]interface{}{}
+		for i, n := 0, r.intn(4); i < n; i++ {
+			m[[]string{"k", "p", "q", "a"}[r.intn(4)]] = c03Value(r, depth-1)
+		}
+		return m
+	default:
+		a := []interface{}{}
+		for i, n := 0, r.intn(4); i < n; i++ {
+			a = append(a, c03Value(r, depth-1))
+		}
+		return a
+	}
+}
+
+// c03Mutate returns a value that differs from v in one small way (or not at all)
+func c03Mutate(r *rng, v interface{}) interface{} {
+	switch x := v.(type) {
+	case map[string]interface{}:
+		out := map[string]interface{}{}
+		keys := make([]string, 0, len(x))
+		for k := range x {
+			keys = append(keys, k)
+		}
+		sortStrings(keys)
+		for _, k := range keys {
+			out[k] = x[k]
+		}
+		if len(keys) == 0 {
+			if r.chance(1, 2) {
+				out["k"] = nil
+			}
+			return out
+		}
+		k := keys[r.intn(len(keys))]
+		switch r.intn(6) {
+		case 0: // rename a member (same value, e.g. null under another name)
+			delete(out, k)
+			out[k+"2"] = x[k]
+		case 1: // replace a member's value by null
+			out[k] = nil
+		case 2: // mutate deeper
+			out[k] = c03Mutate(r, x[k])
+		case 3: // drop a member
+			delete(out, k)
+		case 4: // add a null member
+			out["z"] = nil
+		}
+		return out
+	case []interface{}:
+		out := append([]interface{}{}, x...)
+		if len(out) == 0 {
+			if r.chance(1, 2) {
+				out = append(out, nil)
+			}
+			return out
+		}
+		i := r.intn(len(out))
+		switch r.intn(5) {
+		case 0:
+			out[i] = c03Mutate(r, out[i])
+		case 1:
+			out = append(out, nil)
+		case 2:
+			out = out[:len(out)-1]
+		case 3:
+			j := r.intn(len(out))
+			out[i], out[j] = out[j], out[i]
+		}
+		return out
+	case nil:
+		if r.chance(1, 3) {
+			return false
+		}
+		return nil
+	case float64:
+		if r.chance(1, 3) {
+			return x + 1
+		}
+		return x
+	}
+	return v
+}
+
+func jsonDeepEqual(a, b interface{}) bool {
+	switch x := a.(type) {
+	case map[string]interface{}:
+		y, ok := b.(map[string]interface{})
+		if !ok || len(x) != len(y) {
+			return false
+		}
+		for k, v := range x {
+			w, present := y[k]
+			if !present || !jsonDeepEqual(v, w) {
+				return false
+			}
+		}
+		return true
+	case []interface{}:
+		y, ok := b.([]interface{})
+		if !ok || len(x) != len(y) {
+			return false
+		}
+		for i := range x {
+			if !jsonDeepEqual(x[i], y[i]) {
+				return false
+			}
+		}
+		return true
+	case nil:
+		return b == nil
+	default:
+		return a == b
 	}
 }
 
